@@ -17,6 +17,14 @@ import (
 
 const VerifRoot = "/verif"
 
+// outRoot is where evidence/ and out/ are written: /verif, or $VERIF_OUT_ROOT during mutation testing.
+func outRoot() string {
+	if d := os.Getenv("VERIF_OUT_ROOT"); d != "" {
+		return d
+	}
+	return VerifRoot
+}
+
 // Violation is one distinct failure of a property.
 type Violation struct {
 	// Signature identifies the failure class (monitor id + call site / structural input class).
@@ -197,7 +205,7 @@ func (r *Report) Finish() {
 			known[f.Signature] = f
 		}
 	}
-	outDir := filepath.Join(VerifRoot, "out", r.Property)
+	outDir := filepath.Join(outRoot(), "out", r.Property)
 	_ = os.MkdirAll(outDir, 0o755)
 	unlisted := 0
 	var vioSummaries []map[string]interface{}
@@ -273,8 +281,8 @@ func (r *Report) Finish() {
 		ev["assumptions"] = []string{}
 	}
 	b, _ := json.MarshalIndent(ev, "", " ")
-	_ = os.MkdirAll(filepath.Join(VerifRoot, "evidence"), 0o755)
-	if err := os.WriteFile(filepath.Join(VerifRoot, "evidence", r.Property+".json"), b, 0o644); err != nil {
+	_ = os.MkdirAll(filepath.Join(outRoot(), "evidence"), 0o755)
+	if err := os.WriteFile(filepath.Join(outRoot(), "evidence", r.Property+".json"), b, 0o644); err != nil {
 		fmt.Fprintf(os.Stderr, "HARNESS-ERROR cannot write evidence: %v\n", err)
 		os.Exit(2)
 	}
